@@ -118,13 +118,14 @@ const (
 	c17ObsLoopback   = "loopback"
 	c17ObsNAT64      = "nat64"
 	c17ObsRelay      = "relayed"
+	c17ObsRelayFull  = "relayed(full circuit address)"
 	c17ObsWrongProto = "wrong-transport(tcp<->udp)"
 	c17ObsWrongIP    = "wrong-transport(ip4<->ip6)"
 	c17ObsNoTW       = "no-thin-waist(dns)"
 	c17ObsNil        = "nil"
 )
 
-var c17IneligibleClasses = []string{c17ObsLoopback, c17ObsNAT64, c17ObsRelay, c17ObsWrongProto, c17ObsWrongIP, c17ObsNoTW, c17ObsNil}
+var c17IneligibleClasses = []string{c17ObsLoopback, c17ObsNAT64, c17ObsRelay, c17ObsRelayFull, c17ObsWrongProto, c17ObsWrongIP, c17ObsNoTW, c17ObsNil}
 
 func c17Other(proto string) (string, string) {
 	if proto == "tcp" {
@@ -152,6 +153,9 @@ func c17ObservedFor(l *c17Local, ext int, cls string) ma.Multiaddr {
 		return c17MustAddr(c17TWString(6, "64:ff9b::808:801", l.proto, x.port) + l.suffix)
 	case c17ObsRelay:
 		return c17MustAddr(x.tw(l.ipv, l.proto) + l.suffix + "/p2p-circuit")
+	case c17ObsRelayFull:
+		// the whole circuit address as other implementations write it: <relay>/p2p/<relay id>/p2p-circuit/p2p/<target>
+		return c17MustAddr(x.tw(l.ipv, l.proto) + l.suffix + "/p2p/" + c17RelayID + "/p2p-circuit/p2p/" + c17RelayID)
 	case c17ObsWrongProto:
 		op, os := c17Other(l.proto)
 		return c17MustAddr(x.tw(l.ipv, op) + os)
